@@ -108,6 +108,19 @@ Proof. exact Server4Proofs.l2_frame_fields. Qed.
 Print Assumptions l2_frame_fields.
 
 
+Theorem listener_always_has_interface :
+  forall (zone : option Z) (rx : Z),
+  (forall i : Z, zone = Some i -> i <> 0%Z) ->
+  rx <> 0%Z ->
+  let
+  '(lif, cm) := listen_model zone in
+  pick_if lif (rx_oob cm rx) = Some match zone with
+  | Some i => i
+  | None => rx
+  end.
+Proof. exact (@Server4Proofs.listener_always_has_interface). Qed.
+Print Assumptions listener_always_has_interface.
+
 (* Non-vacuity (proofs/Server4Examples.v): a DISCOVER through the chain [mark; set yiaddr; stop; mark]
    on an unbound listener is answered by a link-level OFFER on the receiving interface, the fourth
    handler never runs; a relayed REQUEST turned into a NAK goes to the relay agent on port 67;
